@@ -212,3 +212,29 @@ Qed.
 Theorem rl_document_definitions_agree : forall ts ds ds',
   rg_document ts = Some ds -> rgl_document rgl_parser ts = Some ds' -> ds' = ds.
 Proof. intros ts ds ds' H1 H2. rewrite (rgl_sub_document rgl_parser _ _ H1) in H2. congruence. Qed.
+
+(* ---- the five known leniencies, each with its witness: parsed without error by the model, rejected by the
+        reference, inside the class rgl_known_document *)
+Definition rl_known_witness (src : str) : Prop :=
+  rl_errs_of (parse_document_items false 500 (lex_all src)) = Some 0 /\
+  exists ts, rg_significant (lex_all src) = Some ts /\ rg_document ts = None /\ rgl_known_document ts = true.
+
+Definition rl_w_argument_without_value : str := [123;32;102;40;97;41;32;125].                        (* { f(a) } *)
+Definition rl_w_object_field_without_value : str := [123;32;102;40;120;58;32;123;97;125;41;32;125].  (* { f(x: {a}) } *)
+Definition rl_w_root_operation_without_type : str :=
+  [115;99;104;101;109;97;32;123;32;113;117;101;114;121;58;32;125].                                  (* schema { query: } *)
+Definition rl_w_description_before_fragment : str :=
+  [34;100;34;32;102;114;97;103;109;101;110;116;32;111;110;32;84;32;123;32;97;32;125].                (* "d" fragment on T { a } *)
+Definition rl_w_schema_extension_empty_block : str :=
+  [101;120;116;101;110;100;32;115;99;104;101;109;97;32;64;100;32;123;32;125].                        (* extend schema @d { } *)
+
+Ltac rl_witness := split; [vm_compute; reflexivity|]; eexists; split; [vm_compute; reflexivity|]; split; vm_compute; reflexivity.
+
+Theorem rl_document_refuted :
+  rl_known_witness rl_w_argument_without_value /\ rl_known_witness rl_w_object_field_without_value /\
+  rl_known_witness rl_w_root_operation_without_type /\ rl_known_witness rl_w_description_before_fragment /\
+  rl_known_witness rl_w_schema_extension_empty_block.
+Proof.
+  unfold rl_known_witness.
+  split; [rl_witness|]. split; [rl_witness|]. split; [rl_witness|]. split; [rl_witness|]. rl_witness.
+Qed.
